@@ -79,6 +79,13 @@ set_option maxRecDepth 1000000 in
 /-- the extractor did find the call sites (guards against a vacuous `discard_facts_ok`) -/
 theorem discard_facts_nonempty : 50 ≤ Gen.discardFacts.length := by decide
 
+/-- **no_double_discard.**  No function of lib/query / lib/value hands one value to `value.Discard` twice on one
+    path: no `defer value.Discard(x)` together with an explicit `Discard(x)` the same execution passes, no two
+    Discards of `x` without a new value in between.  (A value released twice sits in the pool twice; the next two
+    allocations of its type are one object — poisoning cannot see that, no discarded object is read.)
+    Reported as `doublediscard:<file>:<function>:<variable>`. -/
+theorem no_double_discard : Gen.doubleDiscardFacts = [] := by decide
+
 /-- **conversions_fresh.**  Each of `value.ToInteger`, `ToIntegerStrictly`, `ToFloat`, `ToDatetime`,
     `ToBoolean`, `ToString` returns the result of a `value.New*` call on every path (never its
     argument), and all six were found. -/
